@@ -442,6 +442,65 @@ theorem C32_gate_holds : C32_gate := by
   unfold recreateGate
   cases a.system <;> cases a.singleton <;> cases a.relocatable <;> simp
 
+/-- both ends of the filter: whatever lives on the departed node (`pop`), the snapshot holds exactly its
+    relocatable non-system actors; so system and non-relocatable entries are in no share, not among
+    the singletons and never reported unplaceable, and every entry the plan hands to a target passes
+    that target's recreate gate -/
+def C32_both_ends : Prop :=
+  ∀ (pop : List Actor) (leaderRoles : List Role) (peers : List (List Role)) (base : List Nat) (order : List Actor),
+    order.Perm (snapshotActors pop) →
+    let out := allocateActors leaderRoles peers base order
+    (∀ a, a ∈ snapshotActors pop ↔ a ∈ pop ∧ a.system = false ∧ a.relocatable = true)
+    ∧ (∀ a, a ∈ pop → (a.system = true ∨ a.relocatable = false) →
+        a ∉ out.1 ∧ (∀ i, a ∉ out.2.1.getD i []) ∧ a ∉ out.2.2)
+    ∧ (∀ a, (a ∈ out.1 ∨ ∃ i, a ∈ out.2.1.getD i []) → recreateGate a = true)
+
+theorem C32_both_ends_holds : C32_both_ends := by
+  intro pop leaderRoles peers base order hperm out
+  have hkeep : ∀ a, a ∈ snapshotActors pop ↔ a ∈ pop ∧ a.system = false ∧ a.relocatable = true := by
+    intro a
+    simp [snapshotActors, snapshotKeep, List.mem_filter]
+  have hA := C32_actors_holds leaderRoles peers base order
+  simp only at hA
+  obtain ⟨hlen, hlead, hp, _, hunpl, _⟩ := hA
+  -- everything the plan mentions is an entry of the snapshot
+  have hsub : ∀ a, (a ∈ out.1 ∨ (∃ i, a ∈ out.2.1.getD i []) ∨ a ∈ out.2.2) → a ∈ snapshotActors pop := by
+    intro a ha
+    apply hperm.subset
+    apply hp.symm.subset
+    simp only [List.mem_append, List.mem_filter]
+    rcases ha with h | ⟨i, h⟩ | h
+    · have h' : a ∈ order.filter (·.singleton) ++ out.2.1.headD [] := by rw [← hlead]; exact h
+      rcases List.mem_append.1 h' with h1 | h1
+      · left; left; exact List.mem_filter.1 h1
+      · left; right
+        cases hs : out.2.1 with
+        | nil => rw [hs] at h1; cases h1
+        | cons s ss =>
+          rw [hs] at h1
+          exact (mem_flatten_iff_getD (s :: ss) a).2 ⟨0, by simp, by simpa using h1⟩
+    · left; right
+      by_cases hi : i < out.2.1.length
+      · exact (mem_flatten_iff_getD out.2.1 a).2 ⟨i, hi, h⟩
+      · rw [getD_nil_of_le out.2.1 i (by omega)] at h; cases h
+    · right; exact h
+  refine ⟨hkeep, ?_, ?_⟩
+  · intro a _ hbad
+    have hnot : a ∉ snapshotActors pop := by
+      intro hin
+      have := (hkeep a).1 hin
+      rcases hbad with h | h
+      · rw [this.2.1] at h; cases h
+      · rw [this.2.2] at h; cases h
+    refine ⟨fun h => hnot (hsub a (Or.inl h)), fun i h => hnot (hsub a (Or.inr (Or.inl ⟨i, h⟩))), fun h => hnot (hsub a (Or.inr (Or.inr h)))⟩
+  · intro a ha
+    have hin : a ∈ snapshotActors pop := hsub a (by
+      rcases ha with h | h
+      · exact Or.inl h
+      · exact Or.inr (Or.inl h))
+    have := (hkeep a).1 hin
+    exact (C32_gate_holds a).2 this.2.1 this.2.2
+
 /-! ### F. batching a share keeps every item exactly once, in order -/
 
 def batchActors : List Batch → List Actor
@@ -514,11 +573,11 @@ theorem batches_of_code_constant (actors : List Actor) (grains : List Grain) :
 /-- C32 at full strength: for EVERY iteration order, departed state, survivor set, role sets and
     base loads. -/
 def C32_full : Prop :=
-  C32_actors ∧ C32_least_loaded ∧ C32_grains ∧ C32_redistribute ∧ C32_survivors ∧ C32_redistribute_least ∧ C32_gate ∧ C32_batches
+  C32_actors ∧ C32_least_loaded ∧ C32_grains ∧ C32_redistribute ∧ C32_survivors ∧ C32_redistribute_least ∧ C32_gate ∧ C32_both_ends ∧ C32_batches
 
 theorem C32_holds : C32_full :=
   ⟨C32_actors_holds, C32_least_loaded_holds, C32_grains_holds, C32_redistribute_holds, C32_survivors_holds,
-   C32_redistribute_least_holds, C32_gate_holds, C32_batches_holds⟩
+   C32_redistribute_least_holds, C32_gate_holds, C32_both_ends_holds, C32_batches_holds⟩
 
 /-! ### non-vacuity: concrete instances (tests, by evaluation) -/
 
